@@ -54,7 +54,7 @@ def sendHeaders (sid : Int) (headers : List Header) (endStream : Bool)
     if n + 1 > maxOpen then raise (mkExc .TooManyStreamsError) else pure ()
   connInput .SEND_HEADERS
   getOrCreateStream sid c.cfg.client
-  let frames ← withStreamHp sid (Stream.sendHeaders c.cfg headers endStream)
+  let frames ← withStreamHp sid (Stream.sendHeaders c.cfg headers endStream priorityPresent)
   let frames ← if priorityPresent then
       match frames with
       | .headers s b es eh pad _ :: rest => do
@@ -127,7 +127,12 @@ def pushStream (sid promised : Int) (headers : List Header) : CM Unit := do
   getStreamById sid
   if sid % 2 == 0 then raise pErr else
   beginNewStream promised false
-  let frames ← withStreamHp sid (Stream.pushStreamInBand c.cfg promised headers)
+  let frames ← tryCatch (withStreamHp sid (Stream.pushStreamInBand c.cfg promised headers))
+    (fun e => e.isInstance .ProtocolError)
+    (fun e => do
+      -- `del self.streams[promised_stream_id]`
+      modifyS (fun c => { c with streams := c.streams.filter fun s => s.1 != promised })
+      raise e)
   let newFrames ← withStream promised Stream.locallyPushed
   prepareForSending (frames ++ newFrames)
 
@@ -174,6 +179,8 @@ def updateSettings (items : List (Int × Int)) : CM Unit := do
 def advertiseAlternativeService (field : Bytes) (origin : Option Bytes) (sid : Option Int) : CM Unit := do
   if origin.isSome && sid.isSome then raise (.py .ValueError) else
   if origin.isNone && sid.isNone then raise (.py .ValueError) else
+  let c ← getS
+  if c.cfg.client then raise pErr else
   connInput .SEND_ALTERNATIVE_SERVICE
   let frames ← match origin, sid with
     | some o, _ => pure [Frame.altsvc 0 o field]
